@@ -41,6 +41,27 @@ pub struct Scenario {
 }
 
 impl Scenario {
+    pub fn to_json(&self) -> Value {
+        json!({"addrs": self.addrs, "hsa": self.hsa, "gap": self.gap, "baud": self.baud, "slot_bits": self.slot_bits, "ttr": self.ttr, "divs": self.divs, "phases": self.phases,
+            "loads": self.loads.iter().map(|l| format!("{:?}", l)).collect::<Vec<_>>(), "late": self.late, "responders": self.responders})
+    }
+    pub fn from_json(v: &Value) -> Scenario {
+        let u8s = |x: &Value| -> Vec<u8> { x.as_array().unwrap().iter().map(|y| y.as_u64().unwrap() as u8).collect() };
+        let i64s = |x: &Value| -> Vec<i64> { x.as_array().unwrap().iter().map(|y| y.as_i64().unwrap()).collect() };
+        let load = |s: &str| -> Load {
+            if s == "None" { Load::None } else if s == "SdnAlways" { Load::SdnAlways } else {
+                let n: u8 = s.trim_end_matches(')').split('(').nth(1).unwrap().parse().unwrap();
+                if s.starts_with("SrdAlways") { Load::SrdAlways(n) } else { Load::SrdEvery3(n) }
+            }
+        };
+        Scenario {
+            addrs: u8s(&v["addrs"]), hsa: v["hsa"].as_u64().unwrap() as u8, gap: v["gap"].as_u64().unwrap() as u8, baud: v["baud"].as_u64().unwrap() as usize,
+            slot_bits: v["slot_bits"].as_u64().unwrap() as u16, ttr: v["ttr"].as_u64().map(|x| x as u32), divs: i64s(&v["divs"]), phases: i64s(&v["phases"]),
+            loads: v["loads"].as_array().unwrap().iter().map(|l| load(l.as_str().unwrap())).collect(),
+            late: v["late"].as_array().unwrap().iter().map(|x| (x[0].as_u64().unwrap() as usize, x[1].as_i64().unwrap())).collect(),
+            responders: v["responders"].as_array().unwrap().iter().map(|x| (x[0].as_u64().unwrap() as u8, x[1].as_u64().unwrap() as u32)).collect(),
+        }
+    }
     pub fn build(&self) -> W3Cfg {
         let n = self.addrs.len();
         let a_max = *self.addrs.iter().max().unwrap();
@@ -489,7 +510,85 @@ impl ParametersFor {
     }
 }
 
+fn parse_fault(s: &str) -> Fault {
+    if s == "Drop" { Fault::Drop } else if s == "Garble" { Fault::Garble } else if s.starts_with("Truncate") {
+        Fault::Truncate(s.trim_end_matches(')').split('(').nth(1).unwrap().parse().unwrap())
+    } else {
+        let nums: Vec<usize> = s.split(|c: char| !c.is_ascii_digit()).filter(|x| !x.is_empty()).map(|x| x.parse().unwrap()).collect();
+        Fault::Flip { byte: nums[0], bit: nums[1] as u8 }
+    }
+}
+
+/// Re-execute one C06 job and print the bus trace from shortly before the disturbance.
+pub fn replay_c06(r: &Value) {
+    let sc = Scenario::from_json(&r["scenario"]);
+    let job = &r["job"];
+    println!("scenario: {}\ndisturbance: {}", r["scenario"], r["disturbance"]);
+    let mut cfg = sc.build();
+    if job["kind"] == "race" {
+        let slot_us = cfg.slot_us();
+        let d = 2 * (sc.addrs[1] as i64 - sc.addrs[0] as i64) * slot_us;
+        cfg.stations[0].join_us = d + job["off_q"].as_i64().unwrap() * (33 * slot_us / cfg.slot_bits as i64) / 2;
+        cfg.stations[1].join_us = 0;
+    }
+    let cfg = Arc::new(cfg);
+    let mut run = W3Run::new(&cfg);
+    let tally = Tally::new();
+    let t_fault;
+    if job["kind"] == "race" {
+        let slot_us = cfg.slot_us();
+        let d = 2 * (sc.addrs[1] as i64 - sc.addrs[0] as i64) * slot_us;
+        while run.now < d + 20 * slot_us && run.panic.is_none() { run.step(); }
+        t_fault = run.now;
+    } else {
+        while run.now < cfg.converge_by_us && run.panic.is_none() { run.step(); }
+        let first_tx = run.bus.tx_count;
+        match job["kind"].as_str().unwrap() {
+            "fault" => {
+                let n = first_tx + job["n_rel"].as_u64().unwrap() as usize;
+                run.bus.faults.push((n, parse_fault(job["fault"].as_str().unwrap())));
+                while run.bus.tx_count <= n && !run.done() { run.step(); }
+            }
+            "garble" => {
+                let k = job["k"].as_u64().unwrap() as usize;
+                for j in 0..3 { run.bus.faults.push((first_tx + k + j, Fault::Garble)); }
+                while run.bus.tx_count <= first_tx + k + 2 && !run.done() { run.step(); }
+            }
+            _ => {
+                let t = job["t_us"].as_i64().unwrap();
+                let i = job["station"].as_u64().unwrap() as usize;
+                let variant = job["variant"].as_u64().unwrap();
+                // walk to the poll of station i at time t
+                loop {
+                    let (pi, pt) = run.peek();
+                    if pt >= t && pi == i { break; }
+                    run.step();
+                }
+                if variant % 2 == 1 { run.step(); run.bus.abort_tx(i as u8, run.now); }
+                run.crashed[i] = true;
+                if variant >= 2 {
+                    let d = if variant == 2 { 2 } else { 40 } * sc.slot_bits as i64 * 1_000_000 / BAUDS[sc.baud].1 as i64;
+                    run.restart_at[i] = Some(t + d);
+                }
+            }
+        }
+        t_fault = run.restart_at.iter().flatten().copied().max().unwrap_or(run.now);
+    }
+    let mark = run.log.len().saturating_sub(12);
+    c06_finish(&mut run, &sc, t_fault, "replay", &tally, job.clone());
+    let rate = run.bus.rate;
+    for (a, f, s, e) in run.log.iter().skip(mark).take(300) {
+        println!("{:>10} us .. {:>10} us  #{:<3} {}", s / rate, e / rate, a, f.as_ref().map(|f| f.short()).unwrap_or("??".into()));
+    }
+    println!("outcome: {:?}", tally.outcomes.lock().unwrap());
+    for i in 0..sc.addrs.len() { println!("station #{}: {:?}", sc.addrs[i], run.view(i)); }
+}
+
 pub fn replay(v: &Value) {
+    if v["replay"]["world"] == "w3-fault" {
+        replay_c06(&v["replay"]);
+        return;
+    }
     if v["replay"]["kind"] == "las" {
         println!("LAS counterexample: {}", v["replay"]);
         return;
@@ -499,3 +598,397 @@ pub fn replay(v: &Value) {
 
 #[allow(dead_code)]
 fn unused(_: Fault) {}
+
+// ------------------------------------------------------------------------------------------------
+// C13 — token hold time and bounded rotation
+
+/// Evaluate the hold-time / rotation oracle on a finished run (from the convergence point on).
+pub fn c13_check(run: &W3Run, sc: &Scenario) -> Result<(), (String, String)> {
+    let cfg = &run.cfg;
+    let rate = run.bus.rate;
+    let bit = crate::bus::BIT;
+    let n = cfg.stations.len() as i64;
+    let ttr_bits = sc.ttr.unwrap_or(cfg.hsa as u32 * 5000) as i64;
+    let ttr = ttr_bits * bit;
+    let slot = cfg.slot_bits as i64 * bit;
+    let pmax = sc.divs.iter().map(|d| slot / *d).max().unwrap();
+    let from = run.samples.first().map(|s| s.0).unwrap_or(cfg.converge_by_us) * rate;
+    // longest message cycle of the alphabet: SRD request (4 data bytes: 13 bytes = 143 bit) + slot time, or SDN
+    let c_max = 150 * bit + slot + 33 * bit + 2 * pmax;
+    let g_max = 66 * bit + slot + 66 * bit + 6 * pmax;
+    let pass = 33 * bit + 33 * bit + 3 * pmax;
+    let bound = ttr + n * (c_max + g_max + pass);
+    for (i, st) in cfg.stations.iter().enumerate() {
+        let a = st.addr;
+        // token receipts of station a: end of a token telegram X -> a (X != a), scaled time
+        let mut receipts: Vec<i64> = vec![];
+        let mut visits: Vec<(i64, Vec<(i64, bool)>)> = vec![]; // (receipt, requests (start, is_gap_poll))
+        for (sa, f, s, e) in &run.log {
+            match f {
+                Some(crate::refcodec::RFrame::Token { da, sa: tsa }) if *da == a && *tsa != a => {
+                    // a repeated pass is not a new receipt
+                    if receipts.last().map(|r| e - r > slot / 2).unwrap_or(true) {
+                        receipts.push(*e);
+                        visits.push((*e, vec![]));
+                    }
+                }
+                Some(fr) if *sa == a && fr.is_request() => {
+                    if let Some(v) = visits.last_mut() {
+                        v.1.push((*s, fr.is_fdl_status_req()));
+                    }
+                }
+                _ => {}
+            }
+        }
+        for w in visits.windows(2) {
+            let (r_prev, _) = &w[0];
+            let (r_cur, reqs) = &w[1];
+            if *r_cur < from {
+                continue;
+            }
+            // rule 2: rotation bound
+            if r_cur - r_prev > bound {
+                return Err(("c13.rotation_exceeds_bound".into(), format!("#{a}: {} bit times between token receipts at t={}us (bound: TTR {} + N*(cycle+gap+pass) = {} bits)", (r_cur - r_prev) / bit, r_cur / rate, ttr_bits, bound / bit)));
+            }
+            // rule 1: application requests that start after previous receipt + P + TTR: at most one
+            let deadline = r_prev + ttr + 2 * pmax;
+            let late: Vec<i64> = reqs.iter().filter(|(s, gap)| !*gap && *s > deadline).map(|x| x.0).collect();
+            if late.len() > 1 {
+                return Err(("c13.message_cycles_after_hold_time".into(), format!("#{a}: {} application requests started after the hold time was over (visit at t={}us, previous receipt {}us, TTR {} bits)", late.len(), r_cur / rate, r_prev / rate, ttr_bits)));
+            }
+        }
+        // rule 3: no starvation — the application is asked at least once per visit
+        let nvis = visits.len() as u64;
+        if nvis >= 4 && run.apps[i].calls + 2 < nvis {
+            return Err(("c13.application_starved".into(), format!("#{a}: {} token visits but the application was asked only {} times", nvis, run.apps[i].calls)));
+        }
+        if nvis < 3 && run.panic.is_none() {
+            return Err(("c13.station_starved".into(), format!("#{a} received the token only {nvis} times")));
+        }
+        if !matches!(st.load, Load::None) && run.apps[i].sent > 0 {
+            ctx().witness("c13_traffic_sent");
+        }
+    }
+    Ok(())
+}
+
+pub fn run_c13(tier: Tier) -> ! {
+    let mut scenarios = vec![];
+    let sets: Vec<Vec<u8>> = vec![vec![1, 2], vec![0, 5], vec![2, 4, 5], vec![0, 1, 5], vec![0, 2, 3, 5], vec![1, 3, 4]];
+    let loads: Vec<Vec<Load>> = vec![
+        vec![Load::SdnAlways],
+        vec![Load::SrdAlways(40)],
+        vec![Load::SrdAlways(41)],
+        vec![Load::SrdAlways(42)],
+        vec![Load::SrdEvery3(40), Load::SdnAlways],
+        vec![Load::SdnAlways, Load::None],
+        vec![Load::None, Load::SrdAlways(42), Load::SdnAlways],
+    ];
+    for addrs in &sets {
+        for load in &loads {
+            for ttr in [Some(256u32), Some(2000), None] {
+                for divs in [vec![16i64], vec![8], vec![16, 8]] {
+                    for slot_bits in [100u16, 300] {
+                        let mut sc = Scenario { addrs: addrs.clone(), hsa: 6, gap: 1, baud: 1, slot_bits, ttr, divs: divs.clone(), phases: vec![0, 1, 2], loads: load.clone(), late: vec![], responders: vec![(40, 11), (41, slot_bits as u32 - 33), (42, 0)] };
+                        if !sc.inside_envelope() {
+                            continue;
+                        }
+                        sc.gap = if ttr == Some(2000) { 2 } else { 1 };
+                        scenarios.push(sc);
+                    }
+                }
+            }
+        }
+    }
+    let tally = Tally::new();
+    scenarios.par_iter().for_each(|sc| {
+        let mut cfg = sc.build();
+        // traffic slows ring formation and rotations down: every token hold may last TTR
+        let bit_us = cfg.bit_us_f();
+        let ttr_us = (sc.ttr.unwrap_or(sc.hsa as u32 * 5000) as f64 * bit_us) as i64;
+        let n = sc.addrs.len() as i64;
+        cfg.converge_by_us += (sc.hsa as i64 + 8) * n * ttr_us;
+        cfg.horizon_us = cfg.converge_by_us + 8 * (ttr_us + n * (3 * cfg.slot_us()));
+        let cfg = Arc::new(cfg);
+        let k = tier.pick(0u8, 1);
+        let mut base = W3Run::new(&cfg);
+        c13_explore(sc, &cfg, &mut base, k, &tally);
+    });
+    let mut ev = Evidence::default();
+    ev.level = "model_checking";
+    ev.states = tally.runs.load(Ordering::Relaxed);
+    ev.transitions = tally.polls.load(Ordering::Relaxed);
+    ev.traces_validated = ev.states;
+    ev.evaluations = ev.states;
+    ev.distinct_nontrivial = ev.states;
+    ev.rule = "every (station set, application load pattern, TTR, poll pattern, slot time) configuration inside the latency envelope on the default schedule (thorough: plus every placement of one poll stall at every effective poll); passive responders answer after 11 bit, after Tslot-33 bit, or never; oracle on the bus trace: message cycles after the hold time, rotation bound, starvation".into();
+    ev.samples = scenarios.iter().step_by(scenarios.len() / 3 + 1).map(|s| json!(format!("{:?}", s))).collect();
+    ev.exhaustive = true;
+    ev.bounds = json!({"scenarios": scenarios.len(), "stall_budget": tier.pick(0, 1)});
+    let outcomes = tally.outcomes.lock().unwrap().clone();
+    ev.distinct_outcomes = outcomes.len() as u64;
+    ev.extra.insert("outcomes".into(), json!(outcomes));
+    ev.required_witnesses = vec!["c13_traffic_sent", "w3_token_circulated"];
+    finish(ev)
+}
+
+fn c13_explore(sc: &Scenario, cfg: &Arc<W3Cfg>, run: &mut W3Run, budget: u8, tally: &Tally) {
+    while !run.done() {
+        if budget > 0 && run.now >= cfg.converge_by_us {
+            let snapshot = run.clone();
+            let (i, effective) = run.step();
+            if effective {
+                let mut fork = snapshot;
+                fork.stall_next(i);
+                c13_explore(sc, cfg, &mut fork, budget - 1, tally);
+            }
+        } else {
+            run.step();
+        }
+    }
+    tally.runs.fetch_add(1, Ordering::Relaxed);
+    tally.polls.fetch_add(run.polls, Ordering::Relaxed);
+    if run.c01.tokens_seen > 10 {
+        ctx().witness("w3_token_circulated");
+    }
+    let stable = {
+        // C13 speaks about a stable ring: all stations in the ring with a complete LAS at the end
+        let online: Vec<u8> = { let mut v = sc.addrs.clone(); v.sort(); v };
+        (0..sc.addrs.len()).all(|i| { let v = run.view(i); let mut las = v.las.clone(); if !las.contains(&sc.addrs[i]) { las.push(sc.addrs[i]); } las.sort(); v.in_ring && las == online })
+    };
+    if !stable && run.panic.is_none() {
+        *tally.outcomes.lock().unwrap().entry("skipped: ring not stable within the horizon".into()).or_insert(0) += 1;
+        return;
+    }
+    let res = if let Some(p) = &run.panic { Err((format!("c13.run_ended_by_panic.{}", p.split(' ').next().unwrap_or("")), p.clone())) } else { c13_check(run, sc) };
+    match res {
+        Ok(()) => {
+            *tally.outcomes.lock().unwrap().entry("ok".into()).or_insert(0) += 1;
+        }
+        Err((sig, detail)) => {
+            *tally.outcomes.lock().unwrap().entry(sig.clone()).or_insert(0) += 1;
+            let mut c = (**cfg).clone();
+            c.stalls = run.stalls_used.clone();
+            ctx().violation(sig, format!("{detail} [stations {:?} loads {:?} TTR {:?} slot {} divs {:?} stalls {:?}]", sc.addrs, sc.loads, sc.ttr, sc.slot_bits, sc.divs, run.stalls_used), json!({"world":"w3","cfg": c.to_json()}), (sc.addrs.len() * 10 + run.stalls_used.len() * 50) as u64);
+        }
+    }
+}
+
+// ------------------------------------------------------------------------------------------------
+// C06 — recovery from lost stations, lost tokens and corrupted traffic
+
+fn t_rec_us(sc: &Scenario) -> (i64, i64) {
+    let n = sc.addrs.len();
+    let a_max = *sc.addrs.iter().max().unwrap();
+    let max_p = sc.divs.iter().map(|d| sc.slot_bits as f64 / *d as f64).fold(0.0, f64::max);
+    let (t_conv, stab, _r) = bounds_us(n, a_max, sc.hsa, sc.gap, sc.slot_bits, max_p, sc.baud);
+    let bit_us = 1_000_000.0 / BAUDS[sc.baud].1 as f64;
+    (t_conv + (9.0 * sc.slot_bits as f64 * bit_us) as i64, stab)
+}
+
+/// After the last disturbance at `t_fault`, continue for T_rec + stability window and judge.
+fn c06_finish(run: &mut W3Run, sc: &Scenario, t_fault: i64, what: &str, tally: &Tally, job: Value) {
+    let (t_rec, stab) = t_rec_us(sc);
+    run.horizon_us = t_fault + t_rec + stab;
+    run.samples.clear();
+    run.next_sample = t_fault + t_rec;
+    let log_mark = run.log.len();
+    while !run.done() {
+        run.step();
+    }
+    tally.runs.fetch_add(1, Ordering::Relaxed);
+    tally.polls.fetch_add(run.polls, Ordering::Relaxed);
+    let rate = run.bus.rate;
+    let res: Result<(), (String, String)> = if let Some(p) = &run.panic {
+        Err((format!("c06.run_ended_by_panic.{}", p.split(' ').next().unwrap_or("")), p.clone()))
+    } else {
+        // the ring predicate of C02 for the stations that are online and alive
+        c02_check(run).map_err(|(s, d)| (s.replace("c02.", "c06.not_recovered."), d)).and_then(|_| {
+            // never silent for longer than the largest silence time-out plus a full GAP scan
+            let a_max = *sc.addrs.iter().max().unwrap() as i64;
+            let slot = sc.slot_bits as i64 * crate::bus::BIT;
+            let limit = (6 + 2 * a_max) * slot + sc.hsa as i64 * (99 * crate::bus::BIT + slot) + 8 * slot;
+            let mut prev_end: Option<i64> = None;
+            for (_, _, s, e) in &run.log[log_mark.saturating_sub(1)..] {
+                if let Some(pe) = prev_end {
+                    if s - pe > limit {
+                        return Err(("c06.bus_silent_too_long".into(), format!("bus silent for {} bit times at t={}us", (s - pe) / crate::bus::BIT, s / rate)));
+                    }
+                }
+                prev_end = Some(prev_end.map(|p| p.max(*e)).unwrap_or(*e));
+            }
+            Ok(())
+        })
+    };
+    match res {
+        Ok(()) => {
+            ctx().witness("c06_recovered");
+            *tally.outcomes.lock().unwrap().entry(format!("recovered after {}", what.split(' ').next().unwrap_or(""))).or_insert(0) += 1;
+        }
+        Err((sig, detail)) => {
+            *tally.outcomes.lock().unwrap().entry(sig.clone()).or_insert(0) += 1;
+            let tail: Vec<String> = run.log.iter().rev().take(10).rev().map(|(a, f, s, _)| format!("{}us #{} {}", s / rate, a, f.as_ref().map(|f| f.short()).unwrap_or("??".into()))).collect();
+            let views: Vec<String> = (0..sc.addrs.len()).map(|i| format!("#{}:{:?}", sc.addrs[i], run.view(i))).collect();
+            ctx().violation(
+                sig,
+                format!("{detail} [after {what}; stations {:?} HSA {} slot {} divs {:?}; now={}us horizon={}us; last telegrams: {:?}; views: {:?}]", sc.addrs, sc.hsa, sc.slot_bits, sc.divs, run.now, run.horizon_us, tail, views),
+                json!({"world":"w3-fault","scenario": sc.to_json(), "disturbance": what, "job": job}),
+                (sc.addrs.len() * 10) as u64,
+            );
+        }
+    }
+}
+
+pub fn run_c06(tier: Tier) -> ! {
+    let mut scenarios = vec![];
+    let sets: Vec<Vec<u8>> = tier.pick(vec![vec![1, 2], vec![0, 5], vec![2, 4, 5], vec![0, 3, 5]], vec![vec![1, 2], vec![0, 5], vec![2, 4, 5], vec![0, 3, 5], vec![0, 1, 5], vec![1, 3, 4], vec![0, 2, 3, 5]]);
+    for addrs in &sets {
+        for divs in tier.pick(vec![vec![16i64]], vec![vec![16], vec![8]]) {
+            for load in [Load::None, Load::SdnAlways] {
+                if tier == Tier::Quick && load != Load::None && addrs.len() > 2 {
+                    continue;
+                }
+                scenarios.push(Scenario { addrs: addrs.clone(), hsa: 6, gap: 1, baud: 1, slot_bits: 300, ttr: if load == Load::None { None } else { Some(1500) }, divs: divs.clone(), phases: vec![0, 1, 2], loads: vec![load], late: vec![], responders: vec![] });
+            }
+        }
+    }
+    let tally = Tally::new();
+    scenarios.par_iter().for_each(|sc| {
+        let cfg = Arc::new(sc.build());
+        let mut base = W3Run::new(&cfg);
+        // bring the ring up
+        while base.now < cfg.converge_by_us && base.panic.is_none() {
+            base.step();
+        }
+        if let Err((s, d)) = if base.panic.is_some() { Err(("c06.harness.panic_before_faults".to_string(), format!("{:?}", base.panic))) } else { Ok(()) } {
+            ctx().violation(s, d, json!({"world":"w3-fault","scenario": format!("{:?}", sc)}), 1);
+            return;
+        }
+        // window: one GAP cycle worth of telegrams
+        let (_, _, r) = bounds_us(sc.addrs.len(), *sc.addrs.iter().max().unwrap(), sc.hsa, sc.gap, sc.slot_bits, 20.0, sc.baud);
+        let window_us = r * (sc.hsa as i64 + 3);
+        let mut probe = base.clone();
+        let first_tx = probe.bus.tx_count;
+        let t_start = probe.now;
+        // per-telegram faults: for every n in the window
+        let mut lens: Vec<usize> = vec![];
+        {
+            let mut seen = probe.log.len();
+            while probe.now < t_start + window_us {
+                probe.step();
+                while seen < probe.log.len() {
+                    let (_, _, s, e) = &probe.log[seen];
+                    lens.push(((e - s) / (11 * crate::bus::BIT)) as usize);
+                    seen += 1;
+                }
+            }
+        }
+        let n_tx = lens.len();
+        let step = tier.pick(1usize, 1);
+        let fault_jobs: Vec<(usize, Fault)> = (0..n_tx)
+            .step_by(step)
+            .flat_map(|k| {
+                let len = lens[k];
+                let mut v = vec![(first_tx + k, Fault::Drop), (first_tx + k, Fault::Truncate(1)), (first_tx + k, Fault::Flip { byte: 0, bit: 3 }), (first_tx + k, Fault::Flip { byte: len.saturating_sub(1), bit: 0 })];
+                if len > 2 {
+                    v.push((first_tx + k, Fault::Truncate(len - 1)));
+                    v.push((first_tx + k, Fault::Flip { byte: len / 2, bit: 7 }));
+                }
+                v
+            })
+            .collect();
+        fault_jobs.par_iter().for_each(|(n, f)| {
+            let mut run = base.clone();
+            run.bus.faults.push((*n, f.clone()));
+            // run until the faulted telegram has been sent
+            while run.bus.tx_count <= *n && !run.done() && run.now < t_start + window_us * 2 {
+                run.step();
+            }
+            let t_fault = run.now;
+            c06_finish(&mut run, sc, t_fault, &format!("{:?} of telegram #{}", f, n - first_tx), &tally, json!({"kind":"fault","n_rel": n - first_tx, "fault": format!("{:?}", f)}));
+        });
+        // corruption window: three consecutive telegrams garbled
+        (0..n_tx.saturating_sub(3)).into_par_iter().step_by(tier.pick(3, 1)).for_each(|k| {
+            let mut run = base.clone();
+            for j in 0..3 {
+                run.bus.faults.push((first_tx + k + j, Fault::Garble));
+            }
+            while run.bus.tx_count <= first_tx + k + 2 && !run.done() && run.now < t_start + window_us * 2 {
+                run.step();
+            }
+            let t_fault = run.now;
+            c06_finish(&mut run, sc, t_fault, &format!("garbled telegrams #{}..#{}", k, k + 2), &tally, json!({"kind":"garble","k": k}));
+        });
+        // crash (with and without restart) of every station at every effective poll in the window
+        let mut walker = base.clone();
+        let mut crash_jobs: Vec<(W3Run, usize, i64)> = vec![];
+        while walker.now < t_start + window_us {
+            let snapshot = walker.clone();
+            let (i, effective) = walker.step();
+            if effective {
+                crash_jobs.push((snapshot, i, walker.now));
+            }
+        }
+        let stride = tier.pick(3usize, 1);
+        crash_jobs.par_iter().step_by(stride).for_each(|(snap, i, t)| {
+            for variant in 0..tier.pick(2, 4) {
+                // variant 0: crash just before this poll; 1: crash right after it (possibly mid-transmission),
+                // 2/3: the same with a restart after 2 / 40 slot times
+                let mut run = snap.clone();
+                let after = variant % 2 == 1;
+                if after {
+                    run.step();
+                    run.bus.abort_tx(*i as u8, run.now);
+                }
+                run.crashed[*i] = true;
+                if variant >= 2 {
+                    let d = if variant == 2 { 2 } else { 40 } * sc.slot_bits as i64 * 1_000_000 / BAUDS[sc.baud].1 as i64;
+                    run.restart_at[*i] = Some(*t + d);
+                }
+                let t_fault = if variant >= 2 { run.restart_at[*i].unwrap() } else { *t };
+                c06_finish(&mut run, sc, t_fault, &format!("crash of #{} at t={}us variant {}", sc.addrs[*i], t, variant), &tally, json!({"kind":"crash","station": i, "t_us": t, "variant": variant}));
+            }
+        });
+    });
+    // cold-start claim race: two stations whose silence time-outs expire at (almost) the same instant
+    let races: Vec<(Vec<u8>, u8)> = vec![(vec![1, 2], 6), (vec![0, 3], 6), (vec![2, 4, 5], 6)];
+    races.par_iter().for_each(|(addrs, hsa)| {
+        for off_q in tier.pick(vec![0i64, 2], vec![-2, -1, 0, 1, 2, 3]) {
+            let sc = Scenario { addrs: addrs.clone(), hsa: *hsa, gap: 1, baud: 1, slot_bits: 300, ttr: None, divs: vec![16], phases: vec![0, 1, 2], loads: vec![Load::None], late: vec![], responders: vec![] };
+            let mut cfg = sc.build();
+            let slot_us = cfg.slot_us();
+            // station 0 (lowest address) joins later by exactly the difference of the time-outs
+            let d = 2 * (addrs[1] as i64 - addrs[0] as i64) * slot_us;
+            cfg.stations[0].join_us = d + off_q * (33 * slot_us / cfg.slot_bits as i64) / 2;
+            cfg.stations[1].join_us = 0;
+            let cfg = Arc::new(cfg);
+            let mut run = W3Run::new(&cfg);
+            while run.now < d + 20 * slot_us && run.panic.is_none() {
+                run.step();
+            }
+            let collided = run.c01.violations.iter().any(|v| v.0.contains("collision"));
+            if collided {
+                ctx().witness("c06_claim_race_collision_generated");
+            }
+            let t_fault = run.now;
+            c06_finish(&mut run, &sc, t_fault, &format!("cold-start claim race offset {off_q}"), &tally, json!({"kind":"race","off_q": off_q}));
+        }
+    });
+    let mut ev = Evidence::default();
+    ev.level = "fault_enumeration";
+    ev.states = tally.runs.load(Ordering::Relaxed);
+    ev.transitions = tally.polls.load(Ordering::Relaxed);
+    ev.traces_validated = ev.states;
+    ev.evaluations = ev.states;
+    ev.distinct_nontrivial = ev.states;
+    ev.rule = "per scenario the ring is brought up on real stations; then, from a snapshot, every single fault of the plan is applied once: drop / truncate to 1 / truncate to len-1 / bit flip in first, middle, last byte of EVERY telegram of a window of HSA+3 rotations, a 3-telegram corruption window at every position, and a crash of every station at every effective poll (before the poll / right after it incl. mid-transmission, without restart and with restart after 2 and 40 slot times); plus the cold-start claim race; each execution continues fault-free for T_rec and the stability window and is judged by the C02 ring predicate and the silence bound; all executions are distinct by construction".into();
+    ev.samples = vec![json!({"scenario": format!("{:?}", scenarios[0]), "fault": "Drop of telegram #5"}), json!({"scenario": format!("{:?}", scenarios[scenarios.len() - 1]), "fault": "crash of #5 mid-transmission, restart after 40 slot times"})];
+    ev.exhaustive = true;
+    ev.bounds = json!({"scenarios": scenarios.len(), "faults_per_execution": 1, "window_rotations": "HSA+3", "crash_stride": tier.pick(3, 1)});
+    let outcomes = tally.outcomes.lock().unwrap().clone();
+    ev.distinct_outcomes = outcomes.len() as u64;
+    ev.extra.insert("outcomes".into(), json!(outcomes));
+    ev.required_witnesses = vec!["c06_recovered"];
+    ev.assumptions.push("collisions are modelled as corrupted bytes (BusSim); a station that took itself offline after two address-collision observations is not 'online'".into());
+    finish(ev)
+}
